@@ -823,3 +823,58 @@ def rule_end_extension(ctx):
             ctx.holds("ENDEXT", key, f.where(adv[0][4]), "every non-failing path that advances f_end_off writes at the new end or sets FILE_END_DIRTY (or the amount is 0)", nontrivial=True)
     ctx.floor("ENDEXT", 1, n, "(functions that advance f_end_off)")
     return n
+
+
+class _OpenInit(PathAnalysis):
+    def __init__(self, prog):
+        super().__init__(prog)
+        self.exits = []
+
+    def init_user(self, func):
+        return frozenset()
+
+    def on_stmt(self, func, bid, idx, stmt, env, user):
+        u = set(user)
+        for n in walk(stmt["e"]):
+            if n[0] == "asg" and n[1] == "=":
+                mf = mem_field(n[2])
+                if mf == ("filerec_t", "refcount") and is_int(n[3], 1):
+                    u.add("R")
+                elif mf == ("filerec_t", "cache"):
+                    u.add("C")
+                elif mf == ("filerec_t", "dirty"):
+                    u.add("D")
+        return frozenset(u)
+
+    def on_exit(self, func, bid, retval, env, user):
+        self.exits.append((classify_ret(retval, self.fails), user))
+
+
+def rule_open_cache_init(ctx):
+    """OPENINIT (C17): the guarantee 'nothing is written into old space before the flush' rests on descriptor caching, which is a
+    per-open-file flag.  A file record is recycled between opens, so every non-failing path of Hopen that makes a record live
+    (`refcount = 1`) — for an existing file as well as for a new one — must store `cache` (from the session default) and
+    clear `dirty`; otherwise an existing file runs with whatever the record held (0 after calloc: caching off, every
+    descriptor change written in place at once)."""
+    prog = ctx.prog
+    n = 0
+    for f in prog.lib_funcs():
+        if not any(x[0] == "asg" and mem_field(x[2]) == ("filerec_t", "refcount") and is_int(x[3], 1) for _b, _i, _s, x in f.nodes(True)):
+            continue
+        n += 1
+        key = "OPENINIT:%s" % f.name
+        a = _OpenInit(prog)
+        a.fails = fail_values(f, prog)
+        a.run(f)
+        live = [u for cls, u in a.exits if cls != "fail" and "R" in u]
+        bad = [u for u in live if not {"C", "D"} <= u]
+        if not live:
+            ctx.unrecognised("OPENINIT", key, f.where(), "no non-failing path sets refcount = 1")
+        elif bad:
+            miss = sorted({"C": "cache", "D": "dirty"}[k] for k in {"C", "D"} - bad[0])
+            ctx.violated("OPENINIT", key, f.where(), "a non-failing path makes a file record live (refcount = 1) without storing `%s`: an existing file is opened with the value the recycled "
+                         "or freshly allocated record happens to hold, not with the session's caching default" % "`, `".join(miss))
+        else:
+            ctx.holds("OPENINIT", key, f.where(), "every non-failing path that makes a file record live stores cache and dirty", nontrivial=True)
+    ctx.floor("OPENINIT", 1, n, "(functions that make a file record live)")
+    return n
